@@ -106,6 +106,12 @@ func cmdFn(keys []string) int {
 		for _, wn := range g.warnings {
 			fmt.Println("warning:", g.key+":", wn)
 		}
+		if *flagV {
+			for _, li := range g.loops {
+				p := g.prog.Fset.Position(li.minPos)
+				fmt.Printf("loop %d of %s: header block %d (%s), first position line %d, %d blocks\n", li.ord, g.key, li.head.Index, li.head.Comment, p.Line, len(li.blocks))
+			}
+		}
 	}
 	if *flagDump != "" {
 		for _, o := range obls {
